@@ -60,16 +60,24 @@ def rng_for(draw, s):
 def fit_data(draw, s):
     k = draw(st.sampled_from([1, 1, 2, 3]))
     dgms = []
+    forms = []
     for _ in range(k):
         n = draw(st.integers(2, 5))
         pts = []
+        integral = draw(st.integers(0, 3)) == 0
         for _ in range(n):
+            if integral:
+                # an integer-valued diagram, handed over as an integer array or a nested list of ints (mixed with fractional ones in a list)
+                b = draw(st.integers(-2, 5))
+                pts.append([b, b + min(draw(st.integers(1, 6)), max(1, int(30 * s)))])
+                continue
             b = draw(st.one_of(st.sampled_from([0.0, 0.1, 0.3, 0.7, 1.0, -0.2, 2.5]), finite(-5, 5)))
             p = draw(st.one_of(st.sampled_from(DECIMALS), finite(0.01, 20.0))) * draw(st.sampled_from([1, 1, 2, 3]))
             p = min(p, 30 * s)
             pts.append([float(b), float(b + p)])
         dgms.append(pts)
-    return {"dgms": dgms, "single": k == 1 and draw(st.booleans()), "skew": draw(st.booleans())}
+        forms.append(draw(st.sampled_from(["int", "int", "list"])) if integral else "float")
+    return {"dgms": dgms, "single": k == 1 and draw(st.booleans()), "skew": draw(st.booleans()), "forms": forms}
 
 
 @st.composite
@@ -242,7 +250,14 @@ def run_history(case, ctx):
                 ctx.skip("fitted data without positive extent (outside the stated domain)")
             if ((max(bs) - min(bs)) / imgr.pixel_size + 1) * ((max(ps) - min(ps)) / imgr.pixel_size + 1) > 40000:
                 ctx.skip("resolution beyond the cost bound")
-            arg = arrays[0] if (op["single"] and len(arrays) == 1) else arrays
+            given = []
+            for a, form, d in zip(arrays, op.get("forms") or ["float"] * len(arrays), op["dgms"]):
+                if form in ("int", "list") and case.get("unit", 1.0) == 1.0 and all(float(v).is_integer() for q in d for v in q):
+                    given.append(np.array(d, dtype=np.int64) if form == "int" else [[int(v) for v in q] for q in d])
+                    kinds.add("fit_integer_form")
+                else:
+                    given.append(a)
+            arg = given[0] if (op["single"] and len(given) == 1) else given
             ctx.call(imgr.fit, arg, skew=op["skew"])
             sc = max(scale_of(imgr), max(abs(x) for x in bs + ps))
             covers(ctx, imgr.birth_range, (min(bs), max(bs)), imgr.pixel_size, sc, "birth", step)
